@@ -261,7 +261,7 @@ def r3_lag_lead_table(R) -> None:
     ret = [r for r in f.returns() if is_call(r.ast.value, 'Symbol') or method_call(r.ast.value, '_replace')]
     if not ret:
         raise Unsupported(f'{q}: no `return Symbol(...)`')
-    se = SymExec(f.fi.node)
+    se = f.symexec()
     helper = None
     for nm, fn, attr in (('lags', 'min', 'lags'), ('leads', 'max', 'leads')):
         kw = kwarg(ret[0].ast.value, nm)
@@ -285,7 +285,7 @@ def r3_lag_lead_table(R) -> None:
     if len(ps) != 3:
         raise Unsupported(f'{g.q}: expected (this, that, function)')
     this, that, fun = ps
-    gs = SymExec(g.fi.node, keep_raise=True)
+    gs = g.symexec(keep_raise=True)
     grets = g.returns()
     if len(grets) != 1 or grets[0].ast.value is None:
         raise Unsupported(f'{g.q}: expected one return')
@@ -488,7 +488,7 @@ def r5_definition(R) -> None:
     q = f'{P}.build_model_definition'
     f = Fn(R, q)
     sym_param = (f.fi.params() + ['symbols'])[0]
-    se = SymExec(f.fi.node)
+    se = f.symexec()
     call = _template_call(f.fi, list(FIELDS) + ['lags', 'leads', 'equations'])
     st = _stmt_of(f.fi.node, se, call)
     where = f'{f.fi.module.relpath}:{call.lineno}'
@@ -536,7 +536,7 @@ def r5_definition(R) -> None:
     # Fortran twin: the same name lists (in the same order) and the same lag/lead lengths
     ft = Fn(R, 'fsic.fortran.build_fortran_definition')
     fq = ft.q
-    fse = SymExec(ft.fi.node)
+    fse = ft.symexec()
     fsym = (ft.fi.params() + ['symbols'])[0]
     fcall = _template_call(ft.fi, list(FIELDS) + ['lags', 'leads', 'equations'])
     fst = _stmt_of(ft.fi.node, fse, fcall)
